@@ -149,11 +149,24 @@ def run(ch, build):
             for j, c in enumerate(pool):
                 steps.append({"op": "cmd", "conn": "session", "cmd": c, "ctx_ms": 400,
                               "script": ["dupstep", "ok"] if (j and rnd == 0 and (j + k) % 2 == 0) else ["ok"]})
-        sscns.append({"bmc": conn.default_bmc(seed=500 + k, suites=[[100, su[0], su[1], su[2]]]), "timeout_ms": 40, "steps": steps})
+        steps.append({"op": "close"})
+        sscns.append({"bmc": conn.default_bmc(seed=500 + k, suites=[[100, su[0], su[1], su[2]]], **({"first_session_id": 1} if k % 3 == 2 else {})),
+                      "timeout_ms": 40, "steps": steps})
     souts = conn.run_scenarios(sscns)
     sb, sbi = [], []
     for scn, out in zip(sscns, souts):
-        for st, res in list(zip(scn["steps"], out["steps"]))[1:]:
+        # Session.Close: a Close Session request (NetFn App, command 3Ch) naming the BMC's session ID (22.19), nothing else
+        st, res = scn["steps"][-1], out["steps"][-1]
+        bid = int(out["steps"][0]["session"]["remoteid"]) if out["steps"][0].get("session") else None
+        ch.note_case("c06-session-close", str(scn["bmc"]))
+        if bid is not None:
+            want = bid.to_bytes(4, "little").hex()
+            evs = res["bmc"]
+            if not evs or any((e["kind"], e["accepted"], e["netfn"], e["cmd"], e["data"]) != ("ipmi-session", True, 6, 0x3c, want) for e in evs) \
+                    or res["err"] != "nil":
+                ch.violation({"kind": "c06-session-close"}, {"scenario": scn, "events": evs, "err": res["err"], "errtext": res.get("errtext"),
+                             "what": "Close() must send Close Session with the managed system session ID %s as its request data" % want})
+        for st, res in list(zip(scn["steps"], out["steps"]))[1:-1]:
             fn, body, ent, cmd = conn.cmd_op(st["cmd"])
             name = st["cmd"]["name"]
             desc = {"kind": "c06-session-after-stray", "cmd": name}
